@@ -14,6 +14,7 @@ open CoapVerif CoapVerif.Spec.Monitor
 def fmtOut : Out → String
   | .ping g => s!"ping {g}"
   | .cancelPing g => s!"cancelping {g}"
+  | .pingFailed g => s!"pingfail {g}"
   | .close => "close"
 
 def joinOut (l : List String) : String := if l.isEmpty then "none" else " ; ".intercalate l
@@ -25,6 +26,8 @@ structure MState where
 def parseEv (ws : List String) : Option Ev :=
   match ws with
   | ["recv", t] => (parseInt? t).map Ev.recv
+  | ["recvk", _, t] => (parseInt? t).map Ev.recv     -- kind of message (ping, empty ack/rst, response): all are messages from the peer
+  | ["tickf", t] => (parseInt? t).map Ev.tickFail
   | ["pong", g, t] => do let g ← g.toNat?; let t ← parseInt? t; some (Ev.pong g t)
   | ["tick", t] => (parseInt? t).map Ev.tick
   | ["datagram", t] => (parseInt? t).map Ev.datagram
@@ -65,6 +68,7 @@ def parseObs (s : String) : Option (List Out) :=
     match words part with
     | ["ping", g] => g.toNat?.map (fun g => Out.ping g :: acc)
     | ["cancelping", g] => g.toNat?.map (fun g => Out.cancelPing g :: acc)
+    | ["pingfail", g] => g.toNat?.map (fun g => Out.pingFailed g :: acc)
     | ["close"] => some (Out.close :: acc)
     | _ => none) (some [])
 
@@ -91,6 +95,24 @@ def judgeLine (s : JState) (line : String) : JState × String :=
         let idle := s.period ≠ 0 ∧ t > s.last + s.period
         if closes && !idle then ({ s with closed := true }, "violates closed on a datagram although the peer was not silent for a full period")
         else ({ s with last := t, streak := 0, closed := closes }, "ok")
+      | .tickFail t =>
+        -- a tick while nothing can be sent: an idle firing counts, but no ping can appear
+        let idle := s.period ≠ 0 ∧ t > s.last + s.period
+        if !idle then
+          (s, if pingsOut.isEmpty && !closes then "ok" else "violates tick within the period caused a ping or a close")
+        else
+          match s.maxRetries with
+          | none =>
+            if closes then ({ s with closed := true }, "ok")
+            else (s, "violates not closed at the first tick after a full silent period")
+          | some n =>
+            let k := s.streak + 1
+            if k > n then
+              if closes then ({ s with closed := true, streak := k }, "ok")
+              else (s, s!"violates {k} consecutive idle firings (> {n}) since the latest message but the connection was not closed")
+            else if closes then ({ s with closed := true }, s!"violates closed after only {s.streak} consecutive unanswered pings (limit {n})")
+            else if !pingsOut.isEmpty then (s, "violates a ping appeared although sending fails")
+            else ({ s with streak := k, pings := s.pings + 1 }, "ok")
       | .tick t =>
         let idle := s.period ≠ 0 ∧ t > s.last + s.period
         if !idle then
@@ -107,7 +129,7 @@ def judgeLine (s : JState) (line : String) : JState × String :=
               else (s, s!"violates {k} consecutive idle firings (> {n}) since the latest message but the connection was not closed")
             else
               if closes then ({ s with closed := true }, s!"violates closed after only {s.streak} consecutive unanswered pings (limit {n})")
-              else if pingsOut == [s.pings + 1] then ({ s with streak := k, pings := s.pings + 1 }, "ok")
+              else if pingsOut.length == 1 then ({ s with streak := k, pings := s.pings + 1 }, "ok")
               else (s, s!"violates idle firing {k} did not send exactly one new ping (saw {pingsOut})")
     | _, _ => (s, "violates unparsable-observation")
   | _ => (s, "bad-op")
